@@ -223,6 +223,13 @@ def bumpLbi (l : Lbi) (runs : List (List (String × String) × Bool × Bool × N
              gasUsed := if l.gasUsed + gas ≤ U64MAX then l.gasUsed + gas else l.gasUsed,
              logIndex := l.logIndex + logs }) l
 
+/-- no recorded write of the list goes to a block-keyed table (`block_number_to_block`, `block_number_to_raw_block`,
+`block_number_to_hash`): only `finalise_block` calls `set_block` / `set_raw_block` / `set_block_hash` -/
+def noBlockWrites (evs : List Ev) : Bool :=
+  evs.all (fun e => match e with
+    | .s tb _ _ _ => (BId.ofName tb).isNone
+    | _ => true)
+
 /-- `add_tx_to_block` for one or more transactions appended by the same call (a drain appends several). -/
 def addTxs (n : Node) (ts : Nat) (hash0 : String) (idx : Nat) (txid : Option String) (evs : List Ev)
     (expectRuns : Option Nat) : Node × Class :=
@@ -236,6 +243,7 @@ def addTxs (n : Node) (ts : Nat) (hash0 : String) (idx : Nat) (txid : Option Str
     else if (match expectRuns with | some k => decide (runs.length ≠ k) | none => false) then (n, .reject "run-count")
     else if !(runs.all (fun r => envOk r.1 bn ts hash none)) then (n, .reject "env")
     else if !(match runs.head? with | some r => envOk r.1 bn ts hash txid | none => true) then (n, .reject "txid")
+    else if !noBlockWrites evs then (n, .reject "tx-wrote-block-table")
     else
       let l0 : Lbi := if n.lbi.waiting = 0 then { waiting := 0, ts := ts, hash := hash, gasUsed := 0, logIndex := 0 } else n.lbi
       match applyEvents n bn evs with
@@ -293,6 +301,15 @@ def addRawTx (n : Node) (ts : Nat) (hash0 : String) (idx : Nat) (txid : String) 
 
 def resetLbi (n : Node) : Node := { n with lbi := {} }
 
+/-- the recorded writes a `finalise_block` of the block with hash `hash` may contain: rows of the block-keyed tables
+(`set_block`, `set_raw_block`, `set_block_hash`; `applyS` files them under the number being finalised), the
+`block_hash_to_number` row keyed by this block's hash (`set_block_hash`), pending-pool entries (`clear_txpool`) -/
+def finOnly (hash : String) (evs : List Ev) : Bool :=
+  evs.all (fun e => match e with
+    | .s tb _ k _ => (BId.ofName tb).isSome || (tb == TId.hashToNumber.name && k == hash) ||
+        poolTables.any (fun i => tb == i.name)
+    | _ => true)
+
 /-- `finalise_block` (one block): the recorded writes are the block rows, expired pool entries, the hash rows. -/
 def finaliseOne (n : Node) (ts : Nat) (hash0 : String) (count : Nat) (evs : List Ev) : Node × Class :=
   let bn := n.nextHeight
@@ -300,6 +317,8 @@ def finaliseOne (n : Node) (ts : Nat) (hash0 : String) (count : Nat) (evs : List
   match n.validateNextTx count hash bn ts with
   | some e => (n, .err e)
   | none =>
+    if !finOnly hash evs then (n, .reject "fin-wrote")
+    else
     match applyEvents n bn evs with
     | none => (n, .reject "stamp")
     | some n' =>
